@@ -178,6 +178,39 @@ Proof.
     rewrite REP. apply list_eqb_refl. exact pair_eqb_refl.
 Qed.
 
+(* ---------- one accepted new event stores only issued IDs ---------- *)
+Lemma issued_ok_map (m : N -> N) gen ins :
+  (forall r, In r ins -> In (m (r_id r)) gen \/ (r_single r <> 0 /\ m (r_id r) = r_single r)) ->
+  issued_ok gen ins (map (map_row m) ins) = true.
+Proof.
+  induction ins as [|r t IH]; intros H; cbn [issued_ok map]; [reflexivity|].
+  rewrite IH by (intros a Ha; apply H; right; exact Ha). rewrite andb_true_r. cbn [r_id map_row].
+  destruct (H r (or_introl eq_refl)) as [I|[NZ E]].
+  - apply memb_In in I. rewrite I. reflexivity.
+  - rewrite E, N.eqb_refl. apply N.eqb_neq in NZ. rewrite NZ. apply orb_true_r.
+Qed.
+
+Lemma new_event_ok_model au ps g ev g' ev' rep :
+  valid ev = true -> Forall single_ok (e_creates ev) -> c04_first_user_id <= g ->
+  room 0 g (e_arg ev ++ e_creates ev) ->
+  ps = true \/ cud_refs_arg_free ev ->
+  regenerate_gen au ps g ev = (g', ev', rep) ->
+  new_event_ok ev (out_obs (Accepted ev' rep)) = true.
+Proof.
+  intros Hv Hs Hg Hr Hsh E. unfold new_event_ok, out_obs. cbn [o_newids o_arg o_creates].
+  destruct (e_sync ev) eqn:S; [reflexivity|]. cbn [orb].
+  destruct (substitution_proved au ps g ev g' ev' rep Hv Hs Hg Hr Hsh E) as (m & _ & _ & SA & SC & _ & _ & REP & SING & _).
+  rewrite SA, SC, <- map_app. apply issued_ok_map. intros r I.
+  pose proof (vf_raw _ (valid_spec ev Hv) S) as RAW. rewrite Forall_forall in RAW. specialize (RAW r I).
+  apply in_app_or in I. destruct I as [I|I].
+  - left. assert (IN : In (r_id r, m (r_id r)) rep) by (apply REP; [left; exact I|exact RAW]).
+    apply (in_map snd) in IN. exact IN.
+  - destruct (N.eq_dec (r_single r) 0) as [Z|NZ].
+    + left. assert (IN : In (r_id r, m (r_id r)) rep) by (apply REP; [right; split; assumption|exact RAW]).
+      apply (in_map snd) in IN. exact IN.
+    + right. split; [exact NZ|]. apply SING; assumption.
+Qed.
+
 (* ---------- histories ---------- *)
 Lemma satisfies_from_ext t : forall s1 s2, (forall k, s1 k = s2 k) -> satisfies_from s1 t = satisfies_from s2 t.
 Proof.
@@ -239,6 +272,8 @@ Proof.
       { destruct RM as [R1 R2]. split; [lia|]. eapply Forall_impl; [|exact R2]. cbn. intros; lia. }
       pose proof (subst_ok_model au ps _ ev _ ev' rep Hv HS0 A0 RM0 HF0 RG) as SO. cbn [out_obs] in SO.
       rewrite SO. cbn [andb].
+      pose proof (new_event_ok_model au ps _ ev _ ev' rep Hv HS0 A0 RM0 HF0 RG) as NE. cbn [out_obs] in NE.
+      rewrite NE. cbn [andb].
       (* freshness *)
       destruct (regenerate_passes au ps 0 (w_next (st ws0)) ev Hv A0 RM0 _ _ _ RG) as (pa & pc & g1 & repc & P).
       assert (CH : chain (w_next (st ws0)) (map snd rep) (w_next w')).
